@@ -72,6 +72,14 @@ pub fn gen(rng: &mut Rng, thorough: bool, out: &mut Sink) {
         for id in [1, 2, 9] {
             out.push(proc_line(&[Processing::Collapse { id }], s));
         }
+        // the same sequence over the ids {0, 2, u32::MAX}: 0 is the usual unknown id and the default value of the
+        // id type, u32::MAX the reserved value
+        let z: Vec<u32> = s.iter().map(|&t| match t { 1 => 0, 3 => u32::MAX, x => x }).collect();
+        for id in [0, 2, u32::MAX] {
+            out.push(proc_line(&[Processing::Collapse { id }], &z));
+            out.push(proc_line(&[Processing::Strip { id, left: 1, right: 2 }], &z));
+        }
+        out.push(proc_line(&[Processing::Pad { id: 0, length: pmax, stride: 2, direction: Left }], &z));
         for length in 0..=pmax {
             for &stride in &params {
                 for direction in [Left, Right] {
@@ -90,7 +98,8 @@ pub fn gen(rng: &mut Rng, thorough: bool, out: &mut Sink) {
     for _ in 0..n {
         let len = if rng.chance(1, 10) { rng.range(0, 400) } else { rng.range(0, 24) };
         let alpha = rng.range(1, 4) as u32;
-        let s: Vec<u32> = (0..len).map(|_| 1 + rng.below(alpha as usize) as u32).collect();
+        let base = if rng.chance(1, 3) { 0 } else { 1 };
+        let s: Vec<u32> = (0..len).map(|_| base + rng.below(alpha as usize) as u32).collect();
         let nsteps = if rng.chance(1, 2) { 1 } else { rng.range(0, 5) };
         let mut steps = Vec::new();
         for _ in 0..nsteps {
@@ -103,8 +112,8 @@ pub fn gen(rng: &mut Rng, thorough: bool, out: &mut Sink) {
             };
             let direction = if rng.chance(1, 2) { Left } else { Right };
             steps.push(match rng.below(4) {
-                0 => Processing::Strip { id: 1 + rng.below(alpha as usize) as u32, left: big(rng), right: big(rng) },
-                1 => Processing::Collapse { id: 1 + rng.below(alpha as usize) as u32 },
+                0 => Processing::Strip { id: base + rng.below(alpha as usize) as u32, left: big(rng), right: big(rng) },
+                1 => Processing::Collapse { id: base + rng.below(alpha as usize) as u32 },
                 2 => Processing::Pad {
                     id: rng.range(0, 4) as u32,
                     length: rng.range(0, 40) as u32,
